@@ -1,6 +1,7 @@
 SPECIFICATION MCSpec
 CONSTANTS
   Nodes = {"a"}
+  SnapCarriesLP = TRUE
   Kinds = {"E"}
   MaxOps = 5
   MaxSys = 0
@@ -11,7 +12,8 @@ CONSTANTS
   MaxCrash = 2
   MaxStep = 2
   MaxZombie = 0
-  MaxSnap = 0
-  Keeps = {0}
+  MaxSnap = 1
+  MaxForeign = 1
+  Keeps = {100}
   Eager = TRUE
 CHECK_DEADLOCK FALSE
